@@ -8,12 +8,14 @@ TIME_FNS = 'date_from_rfc2822,date_from_rfc3339,date_to_rfc2822,date_to_rfc3339,
 
 PROPS = {
  'C03': dict(
+    srcgen={'SrcOrder': 'SlacProps.C13Source'},
     modules=['SlacProps.C03', 'SlacProps.C03Float', 'SlacProps.C03Source'], translate=True,
     streams=[
         dict(name='evaltable', n=n(0, 0), view='result'),
         dict(name='eval', n=n(40000, 1500000), view='result'),
         dict(name='evalill', n=n(30000, 1000000), view='result'),
         dict(name='spine:eval', n=n(1500, 40000), view='result'),
+        dict(name='wide:eval', n=n(16, 160), view='result', case_timeout=60.0),
         dict(name='script', n=n(20000, 500000), view='script_exec', oracle='none'),
         dict(name='cmp', n=n(40000, 1500000), oracle='none'),
         dict(name='num', n=n(40000, 1500000), oracle='none'),
@@ -31,6 +33,7 @@ PROPS = {
         dict(name='eval', n=n(40000, 1500000), view='full'),
         dict(name='evalill', n=n(30000, 1000000), view='full'),
         dict(name='spine:eval', n=n(1500, 40000), view='full'),
+        dict(name='wide:eval', n=n(16, 160), view='full', case_timeout=60.0),
     ],
     rule='same trees as C03, executed through a recording Environment; the compared line is result + the sequence of variable()/call() events with argument values; '
          'non-trivial = tree has an operator/call/array node',
@@ -41,7 +44,8 @@ PROPS = {
     streams=[dict(name='json', n=n(60000, 2000000), oracle='none', laws=['json_same']),
              dict(name='deep:json', n=n(1000, 50000), oracle='none', laws=['json_same']),
              dict(name='spine:json', n=n(600, 20000), oracle='none', laws=['json_same']),
-             dict(name='vdeep:json', n=n(400, 20000), oracle='none', laws=['json_same'])],
+             dict(name='vdeep:json', n=n(400, 20000), oracle='none', laws=['json_same']),
+             dict(name='wide:json', n=n(8, 48), oracle='none', laws=['json_same'], case_timeout=120.0)],
     rule='json: source-expressible, optimizer-shaped and arbitrary ill-formed trees (depth<=3) with literals from the boundary pool '
          '(random bit patterns, subnormals, -0, 2^53+1, 1e300, NaN, infinities) and Unicode string pools; the canonical JSON value is compared with the model, '
          'and both round-trip routes (serde_json::Value, text) are checked bit-exactly on the real crate. non-trivial = tree has an operator/call/array node',
@@ -78,12 +82,14 @@ PROPS = {
     trusted=[FLOAT_TB, 'Unicode tables dumped from Rust std (SlacModel/UnicodeTables.lean); theorems hold for every CharClass satisfying AsciiOk'],
  ),
  'C05': dict(
+    srcgen={'SrcOptimizer': 'SlacProps.C05Source'},
     modules=['SlacProps.C05'],
     streams=[
         dict(name='opt', n=n(40000, 1500000), view='opt_c05', oracle='none', laws=['c05']),
         dict(name='optill', n=n(20000, 500000), view='opt_c05', oracle='none', laws=['c05']),
         dict(name='spine:opt', n=n(1500, 40000), view='opt_c05', oracle='none', laws=['c05'], case_timeout=20.0),
         dict(name='chain:opt', n=n(100, 1500), view='opt_c05', oracle='none', laws=['c05'], case_timeout=30.0),
+        dict(name='wide:opt', n=n(16, 80), view='opt_c05', oracle='none', laws=['c05'], case_timeout=120.0),
         dict(name='script', n=n(20000, 500000), view='script_opt', oracle='none', laws=['script_c05']),
     ],
     rule='opt/optill: random trees (depth<=4) mixing foldable all-literal sub-trees, variables in several spellings, if_then calls with 2-4 arguments, pure and impure functions of all arity kinds, folds that fail midway; '
@@ -92,6 +98,7 @@ PROPS = {
     assumptions=['impure test functions are history independent; if_then, where bound, is the standard function'],
  ),
  'C06': dict(
+    srcgen={'SrcOptimizer': 'SlacProps.C05Source'},
     modules=['SlacProps.C06'],
     streams=[
         dict(name='opt', n=n(40000, 1500000), view='opt_c06', oracle='none', laws=['c06'], case_timeout=20.0),
@@ -118,6 +125,7 @@ PROPS = {
     trusted=['Rust stack-frame sizes and wall-clock are not expressible in Lean: the depth bound (parse_depth) is proved on the model, the actual stack is observed by the child-process run'],
  ),
  'C10': dict(
+    srcgen={'SrcValidate': 'SlacProps.C10Source', 'SrcEnv': 'SlacProps.C19Source'},
     modules=['SlacProps.C10', 'SlacProps.C10Tables', 'SlacProps.C10Optimize'], regen=True,
     streams=[
         dict(name='dcall', n=n(150, 5000), view='kind', oracle='none', laws=['c10_dcall']),
@@ -132,6 +140,7 @@ PROPS = {
     trusted=[FLOAT_TB],
  ),
  'C11': dict(
+    srcgen={'SrcValidate': 'SlacProps.C10Source'},
     modules=['SlacProps.C11'],
     streams=[dict(name='chkbool', n=n(60000, 2000000), view='chkbool', oracle='none', laws=['c11']),
              dict(name='spine:chkbool', n=n(1500, 40000), view='chkbool', oracle='none', laws=['c11'])],
@@ -140,6 +149,7 @@ PROPS = {
     trusted=[FLOAT_TB],
  ),
  'C13': dict(
+    srcgen={'SrcOrder': 'SlacProps.C13Source'},
     modules=['SlacProps.C13'],
     streams=[
         dict(name='cmp', n=n(60000, 2000000), oracle='none'),
@@ -153,6 +163,7 @@ PROPS = {
     trusted=[FLOAT_TB, 'slice::sort is a stable sort (std); on the Safe domain the stable sorted permutation is unique (Slac.C13.sort_unique)'],
  ),
  'C19': dict(
+    srcgen={'SrcEnv': 'SlacProps.C19Source'},
     modules=['SlacProps.C19'],
     streams=[
         dict(name='envex', n=n(3, 4), oracle='none', rust_oracle=True),
@@ -182,6 +193,7 @@ PROPS = {
         dict(name='spine:json', n=n(1000, 30000), view='jsonclass', oracle='none', laws=['no_crash'], case_timeout=20.0),
         dict(name='chain:opt', n=n(60, 1000), view='first', oracle='none', laws=['no_crash'], case_timeout=30.0),
         dict(name='chain:eval', n=n(60, 1000), view='first', laws=['no_crash'], case_timeout=30.0),
+        dict(name='wide:eval', n=n(16, 160), view='first', laws=['no_crash'], case_timeout=60.0),
     ],
     rule='ill-formed generator: all 17 operators in unary/binary/ternary position, empty and odd names, non-finite and array literals, wrong argument counts, registered and unregistered calls; '
          'deep:* = one spine nested 1..64 levels with small random siblings. Every case runs in a worker process; compared observation: ok / err / crash / timeout class only. non-trivial = tree has an operator/call/array node',
